@@ -259,6 +259,15 @@ def _compare(  # noqa: C901, PLR0912
             if not delete:
                 continue
 
+            if (
+                change.old.meta
+                and change.old.meta.isdir
+                and new is not None
+                and new.has_node(change.key)
+            ):
+                # still a directory in new, just without an entry of its own
+                continue
+
             _add_delete(change.old)
         elif change.typ == UNCHANGED:
             assert relink
